@@ -508,3 +508,34 @@ def response_read_to_end(chk, P, key):
                 return False, "the frame future is not awaited in a loop: only the first frame of the response would be read", [], d.span
         return True, "", [b.span]
     chk.ob(key, "the response body is read frame by frame to its end, trailers included", f)
+
+
+def end_stream_iff_nothing_left(chk, P, key):
+    """The request body tells hyper it is finished (`is_end_stream`) exactly when neither the framing prefix nor the payload is still to be sent."""
+    def f():
+        b = P.body("<emit_otlp::client::http::HttpContent as http_body::Body>::is_end_stream")
+        n = 0
+        for rb in b.return_blocks():
+            for path in b.acyclic_paths(0, rb, limit=300):
+                ps = mir.PathSummary(b, path)
+                v = mir.o_const_value(ps.ret())
+                if v not in (True, False):
+                    return False, "is_end_stream returns %s, not a constant per case" % o_str(ps.ret()), [], b.span
+                left = {}
+                for _, o, vals in ps.decisions():
+                    if o[0] == "discr":
+                        nm = (mir.o_field_path(o[1])[1] or [None])[-1]
+                        vs = tuple(str(x) for x in vals)
+                        left[nm] = (vs == ("1",))          # Some
+                n += 1
+                anything = any(left.get(k_) for k_ in ("content_frame", "content_payload"))
+                both_none = left.get("content_frame") is False and left.get("content_payload") is False
+                if v is True and not both_none:
+                    return False, ("is_end_stream answers true while %s is still to be sent: hyper stops polling the body and the request goes out truncated"
+                                   % [k_ for k_ in ("content_frame", "content_payload") if left.get(k_) is not False][0]), [], b.span
+                if v is False and not anything:
+                    return False, "is_end_stream answers false although nothing is left to send: the request never completes", [], b.span
+        if n < 3:
+            raise mir.AnchorMissing("the cases of HttpContent::is_end_stream (found %d)" % n)
+        return True, "", [b.span]
+    chk.ob(key, "the request body reports its end exactly when prefix and payload have both been handed over", f)
